@@ -6,6 +6,7 @@ import jwegen as E
 import ecmath as EC
 
 ID = "C11"
+CORPUS_FIRST = True
 RULE = ("jwk.gen on the implementation (RAND_bytes tape for symmetric keys) and the model: every registered algorithm "
         "name and unknown names x kty {absent, oct, EC, RSA, other} x crv {absent, 4 named, unknown} x bytes {absent, -1, "
         "0, 1, 16, 32, 1024, 1025, non-integer} x bits {absent, 1024, 2047, 2048, 2^32+512, 2^32+2048, non-integer} x e "
